@@ -8,12 +8,12 @@ for d in seeded/*/; do
   if [ -n "${SEEDFILTER:-}" ] && ! echo "$id" | grep -Eq "$SEEDFILTER"; then continue; fi
   prop=$(python3 -c "import json;print(json.load(open('$d/meta.json')).get('property'))" 2>/dev/null)
   [ -z "$prop" -o "$prop" = "None" ] && continue
-  ( cd $R && git checkout -q -- . && (git apply --3way $OLDPWD/$d/patch.diff 2>/dev/null || git apply $OLDPWD/$d/patch.diff 2>/dev/null) && git reset -q ) || { echo "$id $prop APPLY-FAILED"; ( cd $R && git checkout -q -- . ); continue; }
+  ( cd $R && git checkout -q -- . && (git apply --3way $OLDPWD/$d/patch.diff 2>/dev/null || git apply $OLDPWD/$d/patch.diff 2>/dev/null) && git reset -q ) || { echo "$id $prop APPLY-FAILED"; ( cd $R && git reset -q --hard && git checkout -q -- . ); continue; }
   for s in $SEEDS; do
     VERIF_REPO=$R VERIF_SEED=$s timeout 1500 ./check $prop --tier quick > /tmp/matrix_$$.out 2>&1; rc=$?
     nv=$(grep -c "^VIOLATION" /tmp/matrix_$$.out)
     echo "$id $prop seed=$s rc=$rc violations=$nv"
   done
-  ( cd $R && git checkout -q -- . )
+  ( cd $R && git reset -q --hard && git checkout -q -- . )
 done
 rm -f /tmp/matrix_$$.out replays/*.json
